@@ -35,3 +35,15 @@ LEAVES = [
     ("History", "cleanup_expire_time", "_engine.py", "AsyncEngine._async_cache_cleanup", ("arg", "question_history.async_expire", 0, 0),
      [P("now", "now")], "num", {}),
 ]
+
+# the browser's call of generate_service_query (review r2 E6): the clock it hands over and the question type it asks with
+#   question_type = QU_QUESTION if self._question_type is None and first_request else self._question_type     (0 = None)
+LEAVES += [
+    ("BrowserQuery", "question_type", "_services/browser.py", "QueryScheduler.async_send_ready_queries", ("assign", "question_type", 0),
+     [P("self._question_type is None", "unforced", "bool"), P("first_request", "first_request", "bool"), P("QU_QUESTION", "qu"),
+      P("self._question_type", "forced")], "num", {"nat": True}),
+    ("BrowserQuery", "query_time", "_services/browser.py", "QueryScheduler.async_send_ready_queries", ("arg", "generate_service_query", 1, 0),
+     [P("now_millis", "now_millis")], "num", {}),
+    ("BrowserQuery", "query_type_arg", "_services/browser.py", "QueryScheduler.async_send_ready_queries", ("arg", "generate_service_query", 4, 0),
+     [P("question_type", "question_type")], "num", {"nat": True}),
+]
